@@ -137,7 +137,7 @@ def write_cases(rng, exp, role, tier):
 def entry_point_cases(rng, exp, role, tier):
     """same traffic through facade, accessor and split halves"""
     cs = []
-    for _ in range(10 if tier == "quick" else 100):
+    for _ in range(10 if tier == "quick" else 500):
         K = rbytes(rng, 40)
         ops = []
         for _ in range(rng.randint(2, 12)):
